@@ -9,7 +9,7 @@ ModelElem(t) ==
   IF t[1] = "line" THEN [k |-> "line", n |-> <<M(t[2]), M(t[3]), M(t[4]), M(t[5])>>, role |-> <<0,1,0,1>>, fl |-> <<>>,
                          cls |-> (IF t[6] = 1 THEN <<"broken">> ELSE <<"solid">>) \o (IF t[7] = "" THEN <<>> ELSE <<t[7]>>), s |-> <<>>, g |-> 0]
   ELSE IF t[1] = "rect" THEN [k |-> "rect", n |-> <<M(t[2]), M(t[3]), M(t[4]), M(t[5]), M(t[6])>>, role |-> <<0,1,2,2,2>>, fl |-> <<>>,
-                         cls |-> IF t[7] = 1 THEN <<"broken", "nofill">> ELSE <<"solid", "nofill">>, s |-> <<>>, g |-> 0]
+                         cls |-> (IF t[7] = 1 THEN <<"broken">> ELSE <<"solid">>) \o (IF t[8] = 1 THEN <<"filled">> ELSE <<"nofill">>), s |-> <<>>, g |-> 0]
   ELSE IF t[1] = "path" THEN [k |-> "path", n |-> <<M(t[2]), M(t[3]), M(t[4]), M(t[4]), M(t[6]), M(t[7])>>, role |-> <<0,1,2,2,0,1>>,
                          fl |-> <<0, t[8], t[5]>>, cls |-> <<"nofill">>, s |-> <<>>, g |-> 0]
   ELSE IF t[1] = "polygon" THEN [k |-> "polygon", n |-> [i \in 1..(Len(t) - 1) |-> M(t[i + 1])],
